@@ -42,6 +42,7 @@ FEATURES = [
     "DEEP_PACKAGE",
     "NAME_ECHO",
     "TRAILING_UNDERSCORE",
+    "DOC_TYPE_MISMATCH",
 ]
 
 DOC_STYLES = ["PLAINTEXT", "NUMPYDOC", "GOOGLE", "REST"]
@@ -66,10 +67,15 @@ _SIBLING_FOREIGN = [
     ("numlib.linalg", "LinAlgResult"),
     ("numlib.linalg", "solver_state"),
     ("otherlib.linalg", "Other"),
+    ("numlib._core.array", "Scalar"),
+    ("numlib.linalg._matrix", "DenseMatrix"),
 ]
 _SIBLING_FILES = {
     "numlib/__init__.py": "class float64:\n    pass\n\n\nclass ndarray:\n    pass\n\n\nclass Matrix:\n    pass\n",
-    "numlib/linalg.py": "class LinAlgResult:\n    pass\n\n\nclass solver_state:\n    pass\n",
+    "numlib/_core/__init__.py": "",
+    "numlib/_core/array.py": "class Scalar:\n    pass\n",
+    "numlib/linalg/__init__.py": "class LinAlgResult:\n    pass\n\n\nclass solver_state:\n    pass\n",
+    "numlib/linalg/_matrix.py": "class DenseMatrix:\n    pass\n",
     "otherlib/__init__.py": "",
     "otherlib/linalg.py": "class Other:\n    pass\n",
 }
@@ -149,7 +155,7 @@ class PackageGenerator:
 
     def doc(self, indent: str, description: str, params: list[tuple[str, str, str]] | None = None,
             returns: tuple[str, str] | None = None, attrs: list[tuple[str, str, str]] | None = None,
-            example: str | None = None) -> str:
+            example: str | None = None, named_returns: list[tuple[str, str, str]] | None = None) -> str:
         """Render a docstring in the package's style.
 
         params/attrs: (name, type text, description); returns: (type text, description).
@@ -169,7 +175,12 @@ class PackageGenerator:
                 for n, t, d in attrs:
                     lines += [f"{n} : {t}" if t else n, f"    {d}"]
                 lines.append("")
-            if returns:
+            if named_returns:
+                lines += ["Returns", "-------"]
+                for n, t, d in named_returns:
+                    lines += [f"{n} : {t}", f"    {d}"]
+                lines.append("")
+            elif returns:
                 lines += ["Returns", "-------", f"{returns[0] or 'result'}", f"    {returns[1]}", ""]
             if example:
                 lines += ["Examples", "--------", f">>> {example}", ""]
@@ -395,14 +406,31 @@ class PackageGenerator:
             for _k, pn, ann, _d in params:
                 if r.random() < 0.8:
                     t = ann if (ann and r.random() < 0.5 and "Literal" not in ann and "|" not in ann) else ""
+                    if self.f("DOC_TYPE_MISMATCH") and r.random() < 0.5:
+                        # the docstring states another type than the hint (or a type where there is no hint)
+                        t = r.choice(["str", "int", "float", "bool", "list[int]", "dict[str, float]", "tuple[int, str]", "set[str]", "list[str]"])
                     pdocs.append((pn, t, f"About {self.tokens.new('P', fq, pn)}."))
             rdoc = None
-            if mode in ("ann", "inferred") and r.random() < 0.7:
+            named = None
+            m_t = None
+            if ret_ann and ret_ann.startswith("tuple["):
+                inner = ret_ann[len("tuple["):-1].split(", ")
+                if len(inner) == 2 and all(t in _BUILTIN_TYPES for t in inner) and inner[0] != inner[1]:
+                    m_t = inner
+            if m_t and self.doc_style == "NUMPYDOC" and r.random() < 0.8:
+                # named results; sometimes fewer documented than returned, sometimes in the other order
+                entries = [("first_out", m_t[0]), ("second_out", m_t[1])]
+                if r.random() < 0.4:
+                    entries = [entries[1]]
+                elif r.random() < 0.3:
+                    entries = entries[::-1]
+                named = [(n, t, f"Outcome {self.tokens.new('R', fq, n)}.") for n, t in entries]
+            elif mode in ("ann", "inferred") and r.random() < 0.7:
                 rdoc = ("", f"Outcome {self.tokens.new('R', fq)}.")
             ex = None
             if r.random() < 0.3:
                 ex = f"{name}({self.tokens.new('X', fq)})"
-            lines.append(self.doc(indent + "    ", self.desc("F", fq), pdocs, rdoc, None, ex))
+            lines.append(self.doc(indent + "    ", self.desc("F", fq), pdocs, rdoc, None, ex, named))
         for b in body:
             lines.append(f"{indent}    {b}")
         return "\n".join(lines) + "\n"
@@ -694,9 +722,17 @@ class PackageGenerator:
             mt.body.append('T = TypeVar("T")\nK = TypeVar("K", bound=int)\nV_co = TypeVar("V_co", covariant=True)\n')
             mt.body.append("def first(xs: list[T], k: K) -> T:\n    ...\n")
             mt.body.append("def pair(a: T, b: K) -> tuple[T, K]:\n    ...\n")
-            mt.body.append("class Box(Generic[T]):\n    def __init__(self, item: T) -> None:\n        self.item = item\n\n    def get(self) -> T:\n        ...\n")
             mt.body.append("class ReadOnly(Generic[V_co]):\n    def peek(self) -> V_co:\n        ...\n")
+            mt.body.append("class Box(Generic[T]):\n    def __init__(self, item: T) -> None:\n        self.item = item\n\n    def get(self) -> T:\n        ...\n")
             mt.all_classes += ["Box", "ReadOnly"]
+            # type variables of the same names used by NON-generic classes of other modules (before and after in name order)
+            for uname in ("a_typevar_user", "typevar_user_z"):
+                mu2 = self.new_module(top, uname)
+                mu2.add_import("from typing import TypeVar")
+                mu2.body.append('T = TypeVar("T")\nV_co = TypeVar("V_co", covariant=True)\n')
+                mu2.body.append("class Picker:\n    def first(self, items: list[T]) -> T:\n        ...\n\n    def peek(self, src: list[V_co]) -> V_co:\n        ...\n")
+                mu2.body.append("def pick(items: list[T]) -> T:\n    ...\n")
+                mu2.all_classes.append("Picker")
 
         if self.f("MEMBER_ACCESS") and len(self.modules) >= 2:
             # modules that reference each other through attribute access (import pkg.mod as m; m.Class())
@@ -711,7 +747,8 @@ class PackageGenerator:
         if self.f("NAME_ECHO"):
             # declarations named like (a prefix of) a directory segment of their own target path: the common idiom
             # `shapes/circle/__init__.py: from ._circle import circle`
-            echo = r.choice(["circle", "shape", "tools", "widget"])
+            taken = {m.name.lstrip("_") for m in self.modules if m.pkg_path == f"{top}.{sub_a}"}
+            echo = r.choice([n for n in ["circle", "shape", "tools", "widget"] if n not in taken])
             pk = f"{top}.{sub_a}.{echo}"
             me = self.new_module(pk, f"_{echo}")
             me.body.append(self.gen_function(me, echo, me.qname))
